@@ -204,6 +204,29 @@ def run(rep, tier, rng):
             if nfail == 1:
                 rep.violation({"kind": "oracle", "what": msg, "case_kind": "read", "case": c, "calls": wl["calls"],
                                "specs": wl["specs"], "shp_cut": pl, "shx_cut": ql})
+    # ---- a finalize that FAILS once (I/O fault at one of its operations on either destination) in the middle of the
+    # workload, more shapes, a completed finalize: every shape written before that completed finalize is readable, with
+    # and without the index (the final state is a crash state too: the one where nothing is lost)
+    for code_f in (shapes.ALL_CODES if tier == "thorough" else rng.sample(shapes.ALL_CODES, 4)):
+        a, b, c2 = (shapes.gen_ctor(rng, code_f, "small") for _ in range(3))
+        one = C.parse_whist(sfv.run_impl(dev, [C.whist_case(True, 0, [("w", a)])])[0])
+        base = C.parse_whist(sfv.run_impl(dev, [C.whist_case(True, 0, [("w", a), ("w", b), ("w", c2)])])[0])
+        if "special" in one or "special" in base:
+            continue
+        want = sfv.run_impl(dev, [C.read_case(-1, base["shp"]["buf"], None, [("it", -1)]), C.read_case(-1, base["shp"]["buf"], base["shx"]["buf"], [("it", -1)])])
+        fcs = [C.whist_case(True, 1, [("w", a), ("f",), ("w", b), ("w", c2)], fault=(dest, n0 + j, 0))
+               for dest, n0 in ((1, one["shp"]["ops"] - 16), (2, one["shx"]["ops"] - 16)) for j in (range(16) if tier == "thorough" else (0, 1, 7, 14, 15))]
+        for fc, r in zip(fcs, stages.correspondence(rep, "whist_ff", dev, fcs, "whist(finalize failing once, more shapes, finalize)", vm_sample=10)):
+            res = C.parse_whist(r)
+            if "special" in res or res["results"][1][0] != "err" or any(x != ("ok",) for x in res["results"][2:]):
+                continue
+            got = sfv.run_impl(dev, [C.read_case(-1, res["shp"]["buf"], None, [("it", -1)]), C.read_case(-1, res["shp"]["buf"], res["shx"]["buf"], [("it", -1)])])
+            if got != want:
+                nfail += 1
+                rep.violation({"kind": "oracle", "what": "three shapes of type %d, the finalize after the first failing once (destination %d, its operation %d), "
+                               "then a completed finalize: %s, the shapes written before the completed finalize are not all readable"
+                               % (code_f, fc[3], fc[4], "without index" if got[0] != want[0] else "with the index"), "case_kind": "whist", "case": fc})
+                break
     # ---- a shape with more than 1024 points in one part (beyond the reader's pre-sizing cap) followed by a small one:
     # operation-level cuts; the model reads them too in the thorough tier (its reader is quadratic in the record size)
     for code_l, nparts_l, npts_l in ((8, 1, 1030), (3, 1, 1100)) + (((13, 2, 1030), (28, 1, 2050)) if tier == "thorough" else ()):
